@@ -128,3 +128,24 @@ def run (dialOk : Bytes → Bool) : St → List Op → List (Op × Option Res ×
   | s, op :: rest => let r := step dialOk s op; (op, r.2, r.1) :: run dialOk r.1 rest
 
 end Fh.Model.TlsRoute
+
+namespace Fh.Model.TlsRoute
+
+/-- HostClient.Do's retry loop.  `hcDo` is ONE ATTEMPT (doNonNilReqResp: scheme check, AcquireConn, write, read).
+    Between attempts the retry hooks (RetryIf / RetryIfErr / RetryIfErrUpstream) run with the request in hand and
+    may rewrite it: the script gives, per attempt, the scheme the request has when the attempt starts and whether the
+    attempt fails retriably after the write (peer closes before answering; the connection is then closed).
+    Another attempt happens only after such a failure. -/
+def retryOn (dialOk : Bytes → Bool) (s : St) (i : Nat) : List (Bytes × Bool × Bool) → St × List Res
+  | [] => (s, [])
+  | (scheme, keep, fails) :: rest =>
+    let r := hcDo dialOk s i scheme (keep && !fails)
+    match r.2 with
+    | .wrote id =>
+      if fails then
+        let t := retryOn dialOk r.1 i rest
+        (t.1, .wrote id :: t.2)
+      else (r.1, [.wrote id])
+    | x => (r.1, [x])
+
+end Fh.Model.TlsRoute
